@@ -35,6 +35,31 @@ class Obligation:
     params: dict = field(default_factory=dict)
 
 
+def cvc5_verdict(smt2_text, tlimit_ms=4000):
+    """Second solver: decide an SMT-LIB2 query with cvc5 (wheel); returns 'sat' | 'unsat' | 'unknown' | 'error: ...'."""
+    try:
+        import cvc5
+
+        slv = cvc5.Solver()
+        slv.setOption("tlimit-per", str(tlimit_ms))
+        p = cvc5.InputParser(slv)
+        p.setStringInput(cvc5.InputLanguage.SMT_LIB_2_6, "(set-logic ALL)\n" + smt2_text, "vc")
+        sm = p.getSymbolManager()
+        res = "unknown"
+        while True:
+            c = p.nextCommand()
+            if c.isNull():
+                break
+            o = str(c.invoke(slv, sm)).strip()
+            if o in ("sat", "unsat", "unknown"):
+                res = o
+            elif o.startswith("(error"):
+                return "error: " + o[:120]
+        return res
+    except Exception as e:  # parser/solver failure: no second opinion
+        return "error: %s" % (str(e)[:120],)
+
+
 def _exc_facet(e):
     """Name of the facet violated by an exception escaping the code under test."""
     where = "?"
@@ -155,11 +180,29 @@ def discharge(ob: Obligation, collect_functions=True):
             failed = [(n, c) for n, c in ctx.facets if c is False]
             todo = []
             if sym_facets:
-                v, m = E.prove(s_and(*[c for _, c in sym_facets]))
+                conj = s_and(*[c for _, c in sym_facets])
+                v, m = E.prove(conj)
                 res["vcs"] += 1
                 if v == "proved":
                     res["proved"] += len(sym_facets)
                     proved_names.update(n for n, _ in sym_facets)
+                    if ob.params.get("_cvc5") and res.get("cvc5_checked", 0) < ob.params["_cvc5"]:
+                        # second solver on the verification condition of this path (pc and side constraints and not facets)
+                        E.solver.push()
+                        E.solver.add(z3.Not(conj.t))
+                        txt = E.solver.to_smt2()
+                        E.solver.pop()
+                        t1 = time.time()
+                        cv = cvc5_verdict(txt)
+                        res["cvc5_s"] = round(res.get("cvc5_s", 0) + time.time() - t1, 3)
+                        res["cvc5_checked"] = res.get("cvc5_checked", 0) + 1
+                        if cv == "unsat":
+                            res["cvc5_agree"] = res.get("cvc5_agree", 0) + 1
+                        elif cv == "sat":
+                            res["cvc5_disagree"] = res.get("cvc5_disagree", 0) + 1
+                            res["inconclusive"].append("cvc5 finds the verification condition satisfiable where z3 proved it (path %d)" % res["paths"])
+                        else:
+                            res["cvc5_noanswer"] = res.get("cvc5_noanswer", 0) + 1
                 else:
                     todo = sym_facets
             for n, c in todo:
